@@ -6,6 +6,7 @@ import os
 import shutil
 import tempfile
 import traceback
+import zlib
 
 import numpy as np
 
@@ -94,6 +95,16 @@ class Replayer(object):
                         continue
                     m = b.new(x['c'], x['s'], self.seedform)
                     if x['d'] != 'nodata':
+                        if getattr(b, 'setup_past', False) and zlib.crc32(key.encode()) % 3 == 0:
+                            # a third of the set-ups hold an instance with a past: it modelled other data and answered every kind of
+                            # query before it was fitted to the data of the set-up (the specification's token is that of the last fit)
+                            others = [d for d in b.valid if d != x['d']]
+                            try:
+                                b.fit(m, others[zlib.crc32(key.encode()) // 3 % len(others)])
+                                for meth in b.obs_methods():
+                                    b.query_any(m, meth)
+                            except Exception:
+                                pass
                         b.fit(m, x['d'])
                     objs[i] = m
                 self.objs = objs
